@@ -232,6 +232,9 @@ def format_code(
             for name in parsing.iter_assignments(node)
         }
         preserve = set(preserve) | defs | class_funcs | class_members | assignments
+    else:
+        # Any collection of names will do; the rules work with sets
+        preserve = frozenset(preserve)
 
     if minimum_indent == 0:
         source = fixes.add_missing_imports(source)
